@@ -435,6 +435,9 @@ def _undecided(ra, dec, ll):
     sg = np.rad2deg(_sep_gcirc_rad(ra, dec))
     tol = 1e-9 * ll + 1e-12
     off = ~np.eye(len(ra), dtype=bool)
+    if ll == 0:
+        # linking length 0 joins exactly coincident positions: undecided only when a separation is tiny but not zero
+        return bool((((so > 0) & (so <= tol)) | ((so == 0) != (sg == 0)))[off].any() or np.isnan(sg[off]).any())
     return bool((np.abs(so - ll)[off] <= tol).any() or (np.abs(sg - ll)[off] <= tol).any() or np.isnan(sg[off]).any())
 
 
@@ -687,6 +690,13 @@ def _sphere_cases(ctx, count):
             ll = rng.choice([0.2, 0.5, 1.0, 2.0]) * rng.uniform(0.8, 1.25)
         if kind == 'threshold':
             ll = rng.choice([0.5, 2.0, 3.0, 5.0, 8.0]) * rng.uniform(0.8, 1.25)
+        zero_ll = False
+        if kind in ('chain', 'blobs', 'dups', 'seam') and rng.random() < 0.25:
+            # "any linking length": sub-milliarcsecond astrometry, and 0 (only exactly repeated positions are linked)
+            if kind == 'dups' and rng.random() < 0.5:
+                zero_ll = True
+            else:
+                ll = rng.choice([1e-7, 3e-7, 1e-6, 1e-5]) * rng.uniform(0.8, 1.25)
         csk = rng.choice(['none', 'none', 'min', 'below', 'x1.5', 'x3', 'x10', 'abs'])
         cs = {'none': None, 'min': 4.0 * ll, 'below': ll * rng.uniform(0.5, 3.9), 'x1.5': 6.0 * ll, 'x3': 12.0 * ll * rng.uniform(0.7, 1.3),
               'x10': 40.0 * ll, 'abs': rng.uniform(0.2, 60.0)}[csk]
@@ -696,6 +706,8 @@ def _sphere_cases(ctx, count):
             ra, dec = _lattice(ctx, ll, cs)
         else:
             ra, dec = _gen_points(ctx, kind, ll)
+        if zero_ll:
+            ll = 0.0
         if rng.random() < 0.5:
             perm = list(range(len(ra)))
             rng.shuffle(perm)
@@ -745,6 +757,7 @@ def _sphere(ctx, cases=None, oracle_only=False):
         ctx.seen(c, nontrivial=bool(r.get('pairs')))
         ctx.count('sphere:' + c['kind'])
         ctx.count('sphere:chunksize=' + c['cs'])
+        ctx.count('sphere:linklength=' + ('0' if c['ll'] == 0 else '<1e-4deg' if c['ll'] < 1e-4 else '<1deg' if c['ll'] < 1 else '>=1deg'))
         impl = {kk: v for kk, v in r['impl'].items() if kk != 'msg'}
         if r.get('grid'):
             ctx.count('sphere:cells=%s' % ('1-9' if sum(r['grid'][1]) < 10 else '10-99' if sum(r['grid'][1]) < 100 else '100+'))
